@@ -7,5 +7,7 @@ def check(ctx, rep):
     treer.tree_2(ctx, rep)
     treer.tree_10(ctx, rep)
     treer.tree_11(ctx, rep)
+    from ..rules import rxr
+    rxr.tree_8(ctx, rep)      # end_pos is the key of the position lookup: multi-line token kinds never get the single-line end_pos
     rep.note('Not decided: that the binary search of the position lookup selects the right child (comparisons over positions); '
              'decided only: it returns what it located.')
